@@ -204,13 +204,16 @@ int main (int argc, char **argv)
     else if (!strcmp (c, "packbig") || !strcmp (c, "unpackbig")) {
       /* T count limit position: a buffer of `limit` bytes (up to INT_MAX) that is not filled; code, position, guard */
       int count = atoi (tok[2]), limit = atoi (tok[3]), pos = atoi (tok[4]);
-      unsigned char *big = (unsigned char *) malloc ((size_t) limit + GUARD), *small = sentbuf ((size_t) count * 16 + 16);
-      if (big == NULL) { printf ("NOMEM"); }
+      size_t slen = (size_t) count * 16 + 16;
+      unsigned char *big = (unsigned char *) malloc ((size_t) limit + GUARD), *small;
+      if (slen > ((size_t) 1 << 24)) { small = (unsigned char *) malloc (slen + GUARD); if (small) memset (small + slen, SENT, GUARD); }
+      else small = sentbuf (slen);      /* huge counts (the buffer the call is entitled to read): not filled */
+      if (big == NULL || small == NULL) { printf ("NOMEM"); }
       else {
         memset (big + limit, SENT, GUARD);
         if (c[0] == 'p') rc = sc_MPI_Pack (small, count, dt (tok[1]), big, limit, &pos, world);
         else rc = sc_MPI_Unpack (big, limit, &pos, small, count, dt (tok[1]), world);
-        prc (rc); printf (" %d", pos); guard (big, (size_t) limit); guard (small, (size_t) count * 16 + 16);
+        prc (rc); printf (" %d", pos); guard (big, (size_t) limit); guard (small, slen);
         free (big);
       }
       free (small);
